@@ -203,6 +203,36 @@ def OpFine : RenderOp → Prop
 
 def LogFine (log : List RenderOp) : Prop := ∀ op ∈ log, OpFine S R prompt op
 
+/-- the text half of `OpFine`: the logged texts are of the quantified kind (an input restriction) -/
+def OpPlain : RenderOp → Prop
+  | .refresh p line pos info => C02_Plain S R (p.getD prompt) ∧ C02_PlainSplit S R line pos info
+  | .moveCursor line pos _ => C02_PlainSplit S R line pos none
+  | .insert _ _ _ line pos hint _ _ => C02_PlainSplit S R line pos hint
+  | _ => True
+
+/-- the cursor half of `OpFine`: the logged cursor is on a character boundary of the logged line (what the
+    line-buffer invariant of C03 / C17, `WF s.line`, says of the state in which the renderer was called) -/
+def OpBd : RenderOp → Prop
+  | .refresh _ line pos _ => IsBoundary line pos
+  | .moveCursor line pos _ => IsBoundary line pos
+  | .insert _ _ _ line pos _ _ _ => IsBoundary line pos
+  | _ => True
+
+def LogPlain (log : List RenderOp) : Prop := ∀ op ∈ log, OpPlain S R prompt op
+def LogBd (log : List RenderOp) : Prop := ∀ op ∈ log, OpBd op
+
+theorem opFine_iff (op : RenderOp) : OpFine S R prompt op ↔ OpPlain S R prompt op ∧ OpBd op := by
+  cases op <;> simp only [OpFine, OpPlain, OpBd, isBoundary_iff_split, and_true] <;> constructor <;>
+    (intro h; first | exact ⟨⟨h.1, h.2.2⟩, h.2.1⟩ | exact ⟨h.1.1, h.2, h.1.2⟩ | exact ⟨h.2, h.1⟩ | exact h)
+
+theorem logFine_iff (log : List RenderOp) :
+    LogFine S R prompt log ↔ LogPlain S R prompt log ∧ LogBd log := by
+  constructor
+  · intro h
+    exact ⟨fun op ho => ((opFine_iff S R prompt op).1 (h op ho)).1, fun op ho => ((opFine_iff S R prompt op).1 (h op ho)).2⟩
+  · intro h op ho
+    exact (opFine_iff S R prompt op).2 ⟨h.1 op ho, h.2 op ho⟩
+
 /-- between a change of the line and the repaint: the log replays, the believed cursor is known -/
 def DirtyP (log : List RenderOp) (lc : Pos) : Prop :=
   ∃ rs g, Rep S R prompt log rs g ∧ rs.layout.cursor = lc ∧ C02_Plain S R g.hint
